@@ -1,5 +1,6 @@
 mod common;
 mod c12;
+mod c13;
 mod c15;
 mod c20;
 
@@ -12,6 +13,7 @@ fn main() {
     let opts = common::parse_opts(&args[1..]);
     let code = match which.to_ascii_lowercase().as_str() {
         "c12" => c12::run(opts),
+        "c13" => c13::run(opts),
         "c15" => c15::run(opts),
         "c20" => c20::run(opts),
         other => {
